@@ -11,3 +11,12 @@ func reg(p PropCfg) {
 	p.Assumptions = append(append([]string{}, stdAssume...), p.Assumptions...)
 	props[p.ID] = p
 }
+
+func init() {
+	reg(PropCfg{ID: "C01", Pkg: "c01", Level: "translation_validation",
+		Rule: "programs drawn from the typed model grammar (hs/gen), each compiled and run on the VM and compared with the reference semantics (hs/eval.go): host writes, trigger registrations, outcome class, fatal kind, uncaught-throw message; non-trivial = reference trace executes >= 8 steps and produces output or a non-ok outcome; distinct by program text",
+		Jobs: []Job{
+			{Name: "program", Run: "^TestProgram$", Checks: [2]int{500, 6000}, Shards: [2]int{6, 16}},
+			{Name: "tables", Run: "^TestTable", Shards: [2]int{4, 8}},
+		}})
+}
